@@ -624,6 +624,10 @@ def tasks(tier):
         chunk = max(1, -(-n // per_abi))
         for lo in range(0, n, chunk):
             out.append({"abi": abi, "kind": "nodes", "lo": lo, "hi": min(n, lo + chunk), "tier": tier})
+    # process histories: modules of several ABIs evaluated one after the other in one fresh interpreter, carrying the
+    # SAME escape payload bytes (whose meaning depends on the ABI's byte order)
+    for first in ABIS:
+        out.append({"abi": first, "kind": "abi-history", "depth": 3 if tier == "thorough" else 2})
     gc.freeze()  # keep the collector of the forked workers off the (shared, read-only) plans
     return out
 
@@ -638,6 +642,21 @@ def run_task(task):
     if task["kind"] == "probe":
         probe_default_column(abi, res)
         res.notes["alphabet:" + abi] = len(alphabet(abi))
+        return res
+    if task["kind"] == "abi-history":
+        import itertools
+
+        steps = [(a, pi) for a in ABIS for pi in range(len(SHARED_PAYLOADS))]
+        for pi0 in range(len(SHARED_PAYLOADS)):
+            for n in range(1, task["depth"]):
+                for rest in itertools.product(steps, repeat=n):
+                    hist = [[abi, pi0]] + [list(x) for x in rest]
+                    diffs = run_abi_history(hist)
+                    res.case(("abi-history", tuple(map(tuple, hist))), outcome="abi-history:" + ("ok" if not diffs else "diff"))
+                    res.traces += 1
+                    if diffs:
+                        res.bad({"abi": abi, "abi_history": hist}, diffs)
+        res.sample({"abi": abi, "abi_history": [[abi, 0], [ABIS[-1], 0]]}, cap=1)
         return res
     tier = task["tier"]
     shallow, nodes = plan(abi, _plan_depth(tier, abi))
@@ -664,7 +683,52 @@ def run_task(task):
     return res
 
 
+# ------------------------------------------------------------------ process histories over ABIs
+SHARED_PAYLOADS = (
+    (0x00, 0x16, 0x06, 0x03, 0x0A, 0x34, 0x12),  # nop; val_expression r6 {const2u <34 12>}
+    (0x0F, 0x03, 0x0A, 0x01, 0x02),  # def_cfa_expression {const2u <01 02>}
+)
+ABI_HIST_RUNNER = r"""
+import sys, json
+sys.path.insert(0, %(root)r)
+from vf.props import c15
+print(json.dumps(c15.run_abi_history_inproc(json.loads(%(hist)r))))
+"""
+
+
+def _abi_hist_events(payload):
+    return (("d", ".cfi_startproc", (), None), ("d", ".cfi_def_cfa", (7, 8), None), ("next",), ("d", ".cfi_escape", tuple(payload), None), ("next",), ("d", ".cfi_endproc", (), None))
+
+
+def run_abi_history_inproc(hist):
+    out = []
+    for step, (abi, pi) in enumerate(hist):
+        events = _abi_hist_events(SHARED_PAYLOADS[pi])
+        diffs = check_history(abi, events, _ref_run(abi, events).result())
+        for d in diffs:
+            d["r_step"] = step
+            d["r_history"] = ">".join(a for a, _ in hist[: step + 1])
+        out.extend(diffs)
+    return out
+
+
+def run_abi_history(hist):
+    import json
+    import os
+    import subprocess
+    import sys
+
+    root = os.path.dirname(os.path.dirname(os.path.dirname(os.path.abspath(__file__))))
+    code = ABI_HIST_RUNNER % {"root": root, "hist": json.dumps(hist)}
+    p = subprocess.run([sys.executable, "-c", code], capture_output=True, text=True, env=dict(os.environ), timeout=600)
+    if p.returncode != 0:
+        raise RuntimeError("abi-history sub-process failed: " + p.stderr[-400:])
+    return json.loads(p.stdout.strip().splitlines()[-1])
+
+
 def replay(case):
+    if "abi_history" in case:
+        return run_abi_history(case["abi_history"])
     abi = case["abi"]
     if case.get("probe") == "default-return-column":
         res = TaskResult()
